@@ -42,6 +42,9 @@ type Node struct {
 	Declared *int64 `json:"declared,omitempty"` // malformed: declared size forced to this value
 	FirstIFD int    `json:"first_ifd,omitempty"`
 	MM       bool   `json:"mm,omitempty"`
+	// role mdatitem: an Exif item of ItemLen bytes starts ItemAt bytes into the payload (the iloc box of the tree points at it)
+	ItemAt  int `json:"item_at,omitempty"`
+	ItemLen int `json:"item_len,omitempty"`
 }
 
 type Case struct {
@@ -161,6 +164,33 @@ func (c Case) layout() ([]byte, []*placed, []*placed) {
 			out = append(out, make([]byte, 13)...)
 		case "pitm":
 			out = append(out, 0, 1)
+		case "iinf": // two items: 1 = hvc1 (primary), 2 = Exif
+			out = append(out, 0, 2)
+			for id, typ := range []string{"hvc1", "Exif"} {
+				out = append(out, 0, 0, 0, 21, 'i', 'n', 'f', 'e', 2, 0, 0, 0, 0, byte(id+1), 0, 0)
+				out = append(out, typ...)
+				out = append(out, 0)
+			}
+		case "iloc": // one extent for item 2; offset and length are patched in once the mdat is placed
+			d := make([]byte, 18)
+			d[0] = 0x44
+			binary.BigEndian.PutUint16(d[2:], 1)
+			binary.BigEndian.PutUint16(d[4:], 2)
+			binary.BigEndian.PutUint16(d[8:], 1)
+			p.cbStart = len(out) + 10
+			out = append(out, d...)
+		case "mdatitem":
+			opaque(n.ItemAt)
+			p.cbStart = len(out)
+			out = append(out, 0, 0, 0, 6, 'E', 'x', 'i', 'f', 0, 0)
+			if n.MM {
+				out = append(out, 'M', 'M', 0, '*', 0, 0, 0, 8)
+			} else {
+				out = append(out, 'I', 'I', '*', 0, 8, 0, 0, 0)
+			}
+			opaque(n.ItemLen - 18)
+			p.cbEnd = len(out)
+			opaque(n.Len)
 		default:
 			opaque(n.Len)
 		}
@@ -186,6 +216,19 @@ func (c Case) layout() ([]byte, []*placed, []*placed) {
 	}
 	for i := range c.Top {
 		tops = append(tops, emit(&c.Top[i], nil, 1, i))
+	}
+	var iloc, item *placed
+	for _, p := range all {
+		switch p.n.Role {
+		case "iloc":
+			iloc = p
+		case "mdatitem":
+			item = p
+		}
+	}
+	if iloc != nil && item != nil {
+		binary.BigEndian.PutUint32(out[iloc.cbStart:], uint32(item.cbStart))
+		binary.BigEndian.PutUint32(out[iloc.cbStart+4:], uint32(item.cbEnd-item.cbStart))
 	}
 	return out, all, tops
 }
@@ -289,6 +332,20 @@ func eval(c Case) (f *pbt.Fail) {
 	if c.Mal {
 		return nil
 	}
+	// HEIF Exif item: its callback is only required to stay inside the item (checked here) and the mdat box (checked
+	// above); the listed properties specify the exact byte range only for the CR3 callbacks
+	kept := calls[:0]
+	for _, cl := range calls {
+		if in := innermost(all, cl.start); cl.kind == "exif" && in != nil && in.n.Role == "mdatitem" {
+			heifCallbacks++
+			if cl.start < in.cbStart || cl.end > in.cbEnd {
+				return pbt.Failf("escape:heif-item", "the Exif callback for the HEIF item [%d,%d) was given file bytes [%d,%d)", in.cbStart, in.cbEnd, cl.start, cl.end)
+			}
+			continue
+		}
+		kept = append(kept, cl)
+	}
+	calls = kept
 	// the last walk visited every top-level box: the callbacks must be exactly the model's, in file order
 	if len(calls) != len(want) {
 		return pbt.Failf("callback-count", "callbacks ran %d times (%s), the tree holds %d CMT / xpacket / PRVW boxes (%s)", len(calls), kindsOf(calls), len(want), rolesOf(want))
@@ -330,6 +387,8 @@ func eval(c Case) (f *pbt.Fail) {
 	}
 	return nil
 }
+
+var heifCallbacks int
 
 func nextStart(tops []*placed, k, flen int) int {
 	if k < len(tops) {
@@ -450,7 +509,42 @@ func countNodes(ns []Node) (n, depth int, cb int) {
 	return
 }
 
+// genHeifItem: meta{hdlr, pitm, iinf(Exif item), iloc -> item, ...}, further top-level boxes, mdat holding the item
+// ItemAt bytes into its payload (0 = first payload byte), optionally with a 64-bit size header.
+func genHeifItem(rt *rapid.T) Case {
+	c := Case{Brand: rapid.SampledFrom([]string{"heic", "avif", "mif1", "heix"}).Draw(rt, "brand")}
+	m := Node{Type: "meta", Full: true}
+	m.Kids = append(m.Kids, Node{Type: "hdlr", Role: "hdlr", Full: true}, Node{Type: "pitm", Role: "pitm", Full: true})
+	kids := []Node{{Type: "iinf", Role: "iinf", Full: true}, {Type: "iloc", Role: "iloc", Full: true}}
+	if rapid.Bool().Draw(rt, "iloc-first") {
+		kids[0], kids[1] = kids[1], kids[0]
+	}
+	for _, k := range kids {
+		if gen.Chance(rt, "between?", 0.3) {
+			m.Kids = append(m.Kids, opaqueNode(rt, 2))
+		}
+		m.Kids = append(m.Kids, k)
+	}
+	c.Top = append(c.Top, m)
+	for i, k := 0, rapid.IntRange(0, 2).Draw(rt, "between-top"); i < k; i++ {
+		c.Top = append(c.Top, opaqueNode(rt, 1))
+	}
+	at := rapid.SampledFrom([]int{0, 1, 2, 3, 4, 5, 6, 7, 8, 9, 12, 16, 17, 100, 4000, 4060, 4070, 4080, 4096, 9000}).Draw(rt, "item_at")
+	if at >= 4000 && at < 9000 {
+		at += rapid.IntRange(0, 40).Draw(rt, "item_at_d")
+	}
+	c.Top = append(c.Top, Node{Type: "mdat", Role: "mdatitem", ItemAt: at, ItemLen: rapid.SampledFrom([]int{36, 37, 40, 200, 3000, 5000}).Draw(rt, "item_len"),
+		Len: rapid.SampledFrom([]int{0, 1, 7, 8, 64, 300}).Draw(rt, "after"), MM: rapid.Bool().Draw(rt, "mm"), Large: gen.Chance(rt, "large?", 0.2)})
+	if rapid.Bool().Draw(rt, "trailing-box") {
+		c.Top = append(c.Top, opaqueNode(rt, 1))
+	}
+	return c
+}
+
 func genWell(rt *rapid.T) Case {
+	if gen.Chance(rt, "heif-item?", 0.15) {
+		return genHeifItem(rt)
+	}
 	c := Case{Brand: rapid.SampledFrom([]string{"crx ", "crx ", "heic", "avif"}).Draw(rt, "brand")}
 	if gen.Chance(rt, "brands?", 0.4) {
 		c.Compat = rapid.SliceOfN(rapid.SampledFrom([]string{"crx ", "isom", "mif1", "heic", "avif", "miaf", "MA1B", "msf1", "hevc", "zzzz", "mp41"}), 0, 16).Draw(rt, "compat")
@@ -471,7 +565,13 @@ func genWell(rt *rapid.T) Case {
 			c.Top = append(c.Top, genTop(rt, c.Brand))
 		}
 	}
-	c.Top = append(c.Top, Node{Type: "mdat", Len: rapid.SampledFrom([]int{64, 300}).Draw(rt, "lastmdat")})
+	switch rapid.IntRange(0, 3).Draw(rt, "last") {
+	case 0: // the file ends with a box of 8..15 bytes
+		c.Top = append(c.Top, Node{Type: rapid.SampledFrom([]string{"free", "skip", "mdat"}).Draw(rt, "tinytype"), Len: rapid.IntRange(0, 7).Draw(rt, "tinylast")})
+	case 1: // ... or with whatever the tree ends with
+	default:
+		c.Top = append(c.Top, Node{Type: "mdat", Len: rapid.SampledFrom([]int{64, 300}).Draw(rt, "lastmdat")})
+	}
 	return c
 }
 
@@ -547,7 +647,7 @@ func TestProp(t *testing.T) {
 		"the ftyp box lists 0..16 compatible brands; every opaque payload byte is a function of its absolute offset. For k = 1..n the file is read with ReadFTYP + k x ReadMetadata through a caller-supplied bufio.Reader and recording callbacks that io.ReadAll their reader. " +
 		"oracle (computed by the writer): error nil and stream position == start of top-level box k+1 after every step; callbacks exactly the CMT/xpacket/PRVW boxes in file order; the bytes each callback's reader yields are exactly the file's bytes of that payload (CMT: from the first IFD to the end of the box); header fields (byte order, first IFD, length, directory type CMT1 root / CMT2 Exif / CMT3 maker note / CMT4 GPS; PRVW size and dimensions); PreviewCR3 on camera-layout files returns the PRVW payload. " +
 		"malformed variant: one non-top-level box, and often a chain of its descendants, declare real size + {1..2^31} or a size < 8: whatever a callback reads must be file bytes inside every enclosing box, and a nil return must leave the reader at the next top-level box. non-trivial = depth >= 3 with >= 1 callback box, or a malformed child; distinct by file bytes")
-	rec.Assume("the last top-level box is an mdat of >= 64 bytes (the reader peeks 16 bytes for a box header)")
+	rec.Assume("a HEIF Exif item holds at least the 10-byte item prefix, a TIFF header and a one-entry directory (36 bytes): for shorter items the reader reports an error, which is not a containment question")
 	pbt.RegressDir(t, rec)
 	if !pbt.Run(t, rec, chk, rec.Env.Pick(3000, 120000), 1) {
 		return
